@@ -55,7 +55,7 @@ func vfC12Node(router string) (*vfWorld, *vfNode, *vfMetaStore) {
 	meta := &vfMetaStore{m: map[peer.ID][]byte{}}
 	quiet := slog.New(slog.NewTextHandler(io.Discard, nil))
 	opts := []Option{WithMessageSignaturePolicy(StrictNoSign), WithMaxMessageSize(vfC12MaxMsg), WithDefaultValidator(NewBasicSeqnoValidator(meta, quiet))}
-	if router == "gossip" {
+	if strings.HasPrefix(router, "gossip") {
 		params := vfGSParams("d2")
 		// every control RPC (also the benign GRAFT of the setup) counts against the per-heartbeat IHAVE-message
 		// budget; leave room so that pairs of IHAVEs reach the id budget (MaxIHaveLength = 2) exactly
@@ -71,10 +71,13 @@ func vfC12Node(router string) (*vfWorld, *vfNode, *vfMetaStore) {
 		pm := &partialmessages.PartialMessagesExtension[struct{}]{Logger: quiet,
 			OnIncomingRPC: func(peer.ID, map[peer.ID]struct{}, *pb.PartialMessagesExtension) error { return nil },
 			OnEmitGossip:  func(string, []byte, []peer.ID, map[peer.ID]struct{}) {}}
-		opts = append(opts, WithGossipSubParams(params), WithPeerExchange(true), WithPeerScore(sp, vfThresholds("std")), WithPeerGater(gp),
-			WithTestExtension(TestExtensionConfig{}), WithPartialMessagesExtension(pm))
+		opts = append(opts, WithGossipSubParams(params), WithPeerExchange(true), WithPeerScore(sp, vfThresholds("std")), WithPeerGater(gp))
+		if router == "gossip" {
+			// "gossip-plain" is the default node: no extension configured, whatever the peer claims to support
+			opts = append(opts, WithTestExtension(TestExtensionConfig{}), WithPartialMessagesExtension(pm))
+		}
 	}
-	n, err := vfNewNode(w, "N", router, opts...)
+	n, err := vfNewNode(w, "N", strings.TrimSuffix(router, "-plain"), opts...)
 	if err != nil {
 		panic(err)
 	}
@@ -397,11 +400,13 @@ func vfC12RunOne(r *vfRun, c vfC12Case, in vfC12Input, judge bool) (obs string) 
 	}
 	p := vfBubble(r.t, func() {
 		w, n, _ := vfC12Node(c.Router)
-		hp := map[string]protocol.ID{"flood": FloodSubID, "random": RandomSubID, "gossip": GossipSubID_v12}[c.Router]
+		hp := map[string]protocol.ID{"flood": FloodSubID, "random": RandomSubID, "gossip": GossipSubID_v12, "gossip-plain": GossipSubID_v12}[c.Router]
 		att := newVfFake(w, "a", vfProtoByName[c.Proto])
 		hon := newVfFake(w, "b", hp)
 		var sub *Subscription
-		if c.Router == "gossip" {
+		if c.Router == "gossip-plain" {
+			sub, _ = n.ps.Subscribe("t")
+		} else if c.Router == "gossip" {
 			tp, err := n.ps.Join("t", RequestPartialMessages())
 			if err != nil {
 				panic(err)
@@ -502,6 +507,24 @@ func vfC12RunOne(r *vfRun, c vfC12Case, in vfC12Input, judge bool) (obs string) 
 			bad("honest-not-delivered", "a message from an honest peer is no longer delivered")
 		}
 		obs = fmt.Sprintf("reset=%v mustReset=%v probe=%v", wasReset, mustReset, got)
+		// the attacker leaves in the most awkward order: first it resets the stream the node opened to it (its own
+		// stream, if still up, outlives it), then it disconnects; whatever it claimed while connected, the node
+		// must get through both steps
+		if att.out != nil {
+			att.out.Reset()
+			synctest.Wait()
+			vfAdvance(150 * time.Millisecond) // the writer is respawned after the dead-peer backoff
+		}
+		w.disconnect(att.ident.id, n.id())
+		synctest.Wait()
+		done2 := make(chan struct{})
+		go func() { n.ps.ListPeers("t"); n.eval(func() {}); close(done2) }()
+		synctest.Wait()
+		select {
+		case <-done2:
+		default:
+			bad("loop-stalled-after-departure", "the event loop / API no longer answers after the hostile peer has left")
+		}
 		if r.replay {
 			for _, rc := range att.take() {
 				obs += " | " + vfRenderRPC(rc.rpc, nil)
@@ -522,10 +545,13 @@ func vfC12RunOne(r *vfRun, c vfC12Case, in vfC12Input, judge bool) (obs string) 
 
 func vfC12Families(thorough bool) []vfC12Case {
 	var out []vfC12Case
-	for _, router := range []string{"gossip", "flood", "random"} {
-		protos := map[string][]string{"gossip": {"v13", "v12", "v11", "v10", "fs"}, "flood": {"fs"}, "random": {"rs", "fs"}}[router]
+	for _, router := range []string{"gossip", "gossip-plain", "flood", "random"} {
+		protos := map[string][]string{"gossip": {"v13", "v12", "v11", "v10", "fs"}, "gossip-plain": {"v13", "v12"}, "flood": {"fs"}, "random": {"rs", "fs"}}[router]
 		if !thorough && router == "gossip" {
 			protos = []string{"v13", "v11", "fs"}
+		}
+		if !thorough && router == "gossip-plain" {
+			protos = []string{"v13"}
 		}
 		for _, proto := range protos {
 			out = append(out, vfC12Case{Router: router, Proto: proto, Family: "frame"}, vfC12Case{Router: router, Proto: proto, Family: "rpc"})
@@ -550,7 +576,7 @@ func vfC12Inputs(c vfC12Case, thorough bool) []vfC12Input {
 		return vfC12SeqInputs(self, att, n)
 	}
 	maxDev := 1
-	if thorough || c.Router == "gossip" {
+	if thorough || strings.HasPrefix(c.Router, "gossip") {
 		maxDev = 2
 	}
 	return vfC12RPCInputs(self, att, maxDev)
